@@ -4,7 +4,7 @@ CONSTANTS
   UnitSeq <- Units
   MaxBody = 1
   Framings = {"cl", "chunked", "close"}
-  Kinds = {"noread", "ok"}
+  Kinds = {"noread", "lateread", "ok"}
   CutCodes <- Codes_one
   UpModes = {"free"}
   Requests <- Req_pad
